@@ -112,6 +112,8 @@ pub enum Ev {
     /// C12 with keep-alive: half a second of virtual time passes while handlers hold the receive window shut
     /// (the first one is an explorer choice, the following ones are forced until several periods have passed)
     Wait,
+    /// the application's publish service stops being ready (true) / is ready again (false)
+    Hold(bool),
 }
 
 pub struct In {
@@ -130,6 +132,8 @@ pub struct In {
     pub rgates: std::rc::Rc<Gates>,
     pub window_open: bool,
     pub bp_left: u8,
+    pub holds_left: u8,
+    pub held: bool,
     /// C12 with keep-alive: half-second steps of virtual time that the (single) pause episode still lasts
     pub pause_time_left: u32,
     pub pause_started: bool,
@@ -402,6 +406,8 @@ impl Scenario for In {
                 rgates,
                 window_open: true,
                 bp_left: cfg.bp,
+                holds_left: if cfg.ep.ready_gate { cfg.ep.holds } else { 0 },
+                held: false,
                 pause_time_left: if cfg.judge & J_C12 != 0 && cfg.ep.client_keepalive > 0 { 8 * cfg.ep.client_keepalive as u32 } else { 0 },
                 pause_started: false,
                 cfg,
@@ -455,6 +461,9 @@ impl Scenario for In {
         }
         if self.prologue_left.is_empty() && quiescent && (self.bp_left > 0 || !self.window_open) && !self.conn.done() {
             v.push(Ev::Win(!self.window_open));
+        }
+        if self.prologue_left.is_empty() && quiescent && (self.holds_left > 0 || self.held) && !self.conn.done() {
+            v.push(Ev::Hold(!self.held));
         }
         if quiescent && !self.pause_started && self.pause_time_left > 0 && self.window_shut() {
             v.push(Ev::Wait);
@@ -516,6 +525,13 @@ impl Scenario for In {
                 }
                 self.window_open = open;
                 self.conn.window(open);
+            }
+            Ev::Hold(h) => {
+                if h {
+                    self.holds_left -= 1;
+                }
+                self.held = h;
+                crate::world::hold_readiness(h);
             }
             Ev::Wait => {
                 self.pause_started = true;
